@@ -331,6 +331,22 @@ def rule_hastag(program, ctx, prop=P, rid="C16.hastag"):
                         up = getattr(u, "_parent", None)
                         if isinstance(up, (ast.If, ast.BoolOp, ast.UnaryOp)) or (isinstance(up, ast.Call) and call_name(up) in ("any", "bool")):
                             okuse = False
+            # unpacked as (found, match): a decision taken from `found` alone accepts any event that merely carries a tag of that name
+            if okuse and isinstance(par, ast.Assign) and isinstance(par.targets[0], (ast.Tuple, ast.List)) and len(par.targets[0].elts) == 2 and all(isinstance(t, ast.Name) for t in par.targets[0].elts):
+                first, second = par.targets[0].elts[0].id, par.targets[0].elts[1].id
+                f = getattr(par, "_func", None)
+                for u in (ast.walk(f) if f is not None else []):
+                    if isinstance(u, ast.Name) and u.id == first and isinstance(u.ctx, ast.Load):
+                        top = u
+                        while getattr(top, "_parent", None) is not None and isinstance(top._parent, ast.expr):
+                            top = top._parent
+                        if not any(isinstance(x, ast.Name) and x.id == second for x in ast.walk(top)) and not (isinstance(getattr(top, "_parent", None), ast.Expr) and "log" in ast.unparse(top)):
+                            okuse = False
+                            ctx.bad(finding_at(prop, rid, u, f"{qual_of(c)}: `{first}` (has_tag's first result: *some* tag of that name exists) decides on its own in `{ast.unparse(top)[:60]}`; the "
+                                               f"matching value is `{second}` - every event that carries such a tag from anybody passes"))
+                            break
+                if not okuse:
+                    continue
             if okuse:
                 ctx.ok(rid, c, f"{qual_of(c)}: has_tag pair used by unpack/index/all")
             else:
@@ -371,6 +387,55 @@ def rule_readonly_filters(program, ctx, prop=P, rid="C16.filters"):
         ctx.ok(rid, fn, "model_validate leaves its argument untouched")
 
 
+def rule_listqueries(program, ctx, prop=P, rid="C16.listquery"):
+    from ..lib import guard_atoms
+
+    ctx.rule(
+        rid,
+        "the dynamic lists are built from *all* matching events and from well-formed keys only: the SQL query builder caps a filter's limit by the caller's default_limit "
+        "alone (run_single_query passes 600000 - a second cap by Config.max_limit truncates the list queries to the newest max_limit reports); ListBuilder.initial "
+        "holds the optional service key / whitelist only when they are set (a None element makes run_once raise before the lists are published - the sets stay "
+        "empty, i.e. not enforced)",
+        floor=2,
+    )
+    bq = program.func("nostr_relay.storage.db:Subscription.build_query")
+    for st in stores_of(bq, "limit"):
+        if isinstance(st, ast.Assign) and isinstance(st.value, ast.Call) and call_name(st.value) == "min":
+            args = {ast.unparse(a) for a in st.value.args}
+            extra = {a for a in args if a not in ("self.default_limit", "limit") and not a.endswith(".limit")}
+            if extra:
+                ctx.bad(finding_at(prop, rid, st, f"the stored query's limit is additionally capped by `{sorted(extra)[0][:50]}`: internal queries (dynamic allow/deny lists, run_single_query with "
+                                   "default_limit=600000) are truncated to the client cap - pubkeys reported only in older events drop off the deny list"))
+            else:
+                ctx.ok(rid, st, f"limit = {ast.unparse(st.value)[:60]}")
+    init = program.func("nostr_relay.dynamic_lists:ListBuilder.__init__")
+    n = 0
+    for x in walk_no_nested(init):
+        src = None
+        if isinstance(x, ast.Call) and isinstance(x.func, ast.Attribute) and x.func.attr in ("append", "extend", "add", "update") and "initial" in ast.unparse(x.func.value) and x.args:
+            src = x
+            optional = [a for a in ast.walk(x.args[0]) if isinstance(a, ast.Attribute) and dotted(a) in ("Config.service_pubkey", "Config.pubkey_whitelist")]
+        elif isinstance(x, ast.Assign) and any("initial" in ast.unparse(t) for t in x.targets) and isinstance(x.value, (ast.List, ast.Tuple, ast.Set, ast.BinOp)):
+            src = x
+            optional = [a for a in ast.walk(x.value) if isinstance(a, ast.Attribute) and dotted(a) in ("Config.service_pubkey", "Config.pubkey_whitelist")]
+        else:
+            continue
+        for a in optional:
+            n += 1
+            nm = dotted(a)
+            guarded = any(nm in ast.unparse(e) and pol for e, pol in guard_atoms(a, stop=init))
+            # `*(Config.pubkey_whitelist or ())` guards the iterable, not an element
+            par = getattr(a, "_parent", None)
+            inline_or = isinstance(par, ast.BoolOp) and isinstance(par.op, ast.Or) and par.values[0] is a and isinstance(getattr(par, "_parent", None), (ast.Starred, ast.Call))
+            if guarded or inline_or:
+                ctx.ok(rid, a, f"{nm} joins the preconfigured keys only when set")
+            else:
+                ctx.bad(finding_at(prop, rid, src, f"`{nm}` is put into ListBuilder.initial without a test that it is set: with no service key configured the element is None, "
+                                   "bytes.fromhex(None) raises in run_once before the allow/deny sets are published, Periodic swallows it - both lists stay empty (= not enforced)"))
+    if not n:
+        ctx.info(rid, init, "ListBuilder.initial no longer reads the optional keys")
+
+
 def run(program, ctx):
     from ..lib import rule_awaited
 
@@ -383,6 +448,7 @@ def run(program, ctx):
     rule_builder(program, ctx)
     rule_hastag(program, ctx)
     rule_readonly_filters(program, ctx)
+    rule_listqueries(program, ctx)
     from . import c04
 
     # the static black/white lists are compared as strings with event.pubkey: they rely on admission accepting only the canonical lower-case spelling
